@@ -1,12 +1,19 @@
 import Okane.Drv.Core
 import Okane.Model.Query
+import Okane.Model.PriceDbFile
 import Okane.Lemmas.PriceTerm
 /-!
 Driver for C09.  Input: the output lines of `hx c09`
-  `<id> tree=(...) pdb=((P (d Y M D) TARGET neg mant scale COMMODITY) ...) result=ok q=(((d Y M D) A B <res>) ...)`
+  `<id> tree=(...) pdb=((P (d Y M D) TARGET neg mant scale COMMODITY) ...)|- [db=<enc text>] result=ok|(...)
+        [dberr=(offset end line_start)|io] q=(((d Y M D) A B <res>) ...)`
+The **text** of the price database (`db`) is parsed by the model itself (`PriceDbFile.parsePriceDb`) and loaded
+with the model of `load_price_db` (`PriceDbFile.processPriceDb`); the generator's structured records (`pdb`, `-`
+when there are none) are a cross-check: the model-parsed records must equal them.  When the implementation
+failed with `ReportError::PriceDB` the model must fail too, with the same `error_span` and `line_start`.
 For every query the model's `Query.eval "1 A" {date, exchange B}` is computed under several pop orders and
 neighbour orders (the parameters of `Price.priceTable`); the implementation's answer must be one of them.
-Output: `<id> agree q=<n> ties=<k> inexact=<k> maxsteps=<n>` | `<id> DISAGREE ...` | `<id> skip ...`.
+Output: `<id> agree q=<n> ties=<k> inexact=<k> maxsteps=<n> recs=<n>` | `<id> agree dberr=(o e l)` |
+        `<id> DISAGREE ...` | `<id> skip ...`.
 -/
 namespace Okane.Drv.C09
 open Okane Okane.Drv Okane.Price Okane.Query Sexp
@@ -189,6 +196,35 @@ def mkWorld (entries : List Entry) (db : List DbLine) : Except String World :=
   | .panic s => .error ("model panic: " ++ s)
   | .fuelOut => .error "model fuel"
 
+/-- the world of a case whose price database is given as text: the model parses and loads it
+(`report::process` with `price_db_path`; no path = nothing to load = the empty text). -/
+def mkWorldText (entries : List Entry) (text : List Char) : Except String (Except Parse.ParseErr World) :=
+  match process entries with
+  | .ok st =>
+    match PriceDbFile.processPriceDb st.events text st.ctx.commodities with
+    | .ok (store, repo) => .ok (.ok ⟨{ st with ctx := { st.ctx with commodities := store } }, store, repo⟩)
+    | .err e => .ok (.error e)
+    | .panic s => .error ("model panic: " ++ s)
+    | .fuelOut => .error "model fuel (price db)"
+  | .err (i, _) => .error s!"model rejects entry {i}"
+  | .panic s => .error ("model panic: " ++ s)
+  | .fuelOut => .error "model fuel"
+
+/-- model-parsed records against the generator's structured records -/
+def recsMatch (rs : List PriceDbFile.PriceRec) (db : List DbLine) : Bool :=
+  rs.length == db.length && (rs.zip db).all fun (r, l) =>
+    r.date == l.date && r.target == l.target && r.rate.toRat == l.rate && r.commodity == l.commodity
+
+def showErr (e : Parse.ParseErr) : String := s!"({e.offset} {e.spanEnd} {e.lineStart})"
+
+/-- `dberr=(offset end line_start)` -/
+def decDbErr (s : String) : Option (Nat × Nat × Nat) :=
+  match Sexp.parse s with
+  | some (.list [a, b, c]) => do
+    let a ← a.nat?; let b ← b.nat?; let c ← c.nat?
+    pure (a, b, c)
+  | _ => none
+
 inductive Res where
   | ok (a : Amount String)
   | err (kind : String)
@@ -256,23 +292,60 @@ def checkQuery (w : World) (t : Tally) : Sexp → Tally
 
 def step (line : String) : String :=
   let (id, fs) := splitFields line
-  match field fs "tree", field fs "pdb", field fs "result", field fs "q" with
-  | some t, some pdb, some result, some q =>
-    if result != "ok" then s!"{id} skip impl={result}" else
-    match decEntries t, (Sexp.parse pdb).bind decDb, Sexp.parse q with
-    | some es, some db, some (.list qs) =>
-      match mkWorld es db with
-      | .error e => s!"{id} DISAGREE implementation processed the ledger, {e}"
-      | .ok w =>
-        let tally := qs.foldl (checkQuery w) {}
-        match tally.bad with
-        | some b => s!"{id} DISAGREE {b}"
-        | none =>
-          let targets := (qs.filterMap fun | .list [d, _, b, _] => (do let d ← decDate d; let b ← b.str?; pure (d, b)) | _ => none)
-          let steps := (targets.reverse.take 40).foldl (fun m db => max m (stepsNeeded w db.1 db.2)) 0
-          s!"{id} agree q={tally.n} ties={tally.ties} inexact={tally.inexact} maxsteps={steps}"
-    | _, _, _ => s!"{id} undecodable"
-  | _, _, _, _ => s!"{id} bad-case"
+  match field fs "tree", field fs "result", field fs "q" with
+  | some t, some result, some q =>
+    -- the price-db text (absent = no price db path = nothing to load)
+    let text? : Option (List Char) :=
+      match field fs "db" with
+      | none => some []
+      | some x => (Sexp.decode x).map String.toList
+    -- the structured records (`-` or absent: none given)
+    let pdb? : Option (Option (List DbLine)) :=
+      match field fs "pdb" with
+      | none => some none
+      | some "-" => some none
+      | some x => ((Sexp.parse x).bind decDb).map some
+    match text?, pdb? with
+    | some text, some pdb =>
+      if result != "ok" then
+        -- the implementation failed: only a price-db parse error is this driver's matter
+        match field fs "dberr" with
+        | none => s!"{id} skip impl={result}"
+        | some "io" => s!"{id} skip impl=io"
+        | some de =>
+          match decDbErr de, PriceDbFile.parsePriceDb text with
+          | some (o, e, l), .err me =>
+            if me.offset == o && me.spanEnd == e && me.lineStart == l then s!"{id} agree dberr={showErr me}"
+            else s!"{id} DISAGREE price-db parse error: impl={de} model={showErr me}"
+          | some _, .ok rs => s!"{id} DISAGREE the implementation rejects the price db ({de}), the model reads {rs.length} records"
+          | some _, .panic p => s!"{id} DISAGREE model panic (price db): {p}"
+          | some _, .fuelOut => s!"{id} DISAGREE model fuel (price db)"
+          | none, _ => s!"{id} undecodable"
+      else
+      match decEntries t, Sexp.parse q with
+      | some es, some (.list qs) =>
+        match PriceDbFile.parsePriceDb text with
+        | .err me => s!"{id} DISAGREE the implementation loads the price db, the model rejects it: {showErr me}"
+        | .panic p => s!"{id} DISAGREE model panic (price db): {p}"
+        | .fuelOut => s!"{id} DISAGREE model fuel (price db)"
+        | .ok rs =>
+          if !(pdb.all (recsMatch rs)) then
+            s!"{id} DISAGREE the records the model parses from the price-db text differ from the generator's records"
+          else
+          match mkWorldText es text with
+          | .error e => s!"{id} DISAGREE implementation processed the ledger, {e}"
+          | .ok (.error me) => s!"{id} DISAGREE the implementation loads the price db, the model rejects it: {showErr me}"
+          | .ok (.ok w) =>
+            let tally := qs.foldl (checkQuery w) {}
+            match tally.bad with
+            | some b => s!"{id} DISAGREE {b}"
+            | none =>
+              let targets := (qs.filterMap fun | .list [d, _, b, _] => (do let d ← decDate d; let b ← b.str?; pure (d, b)) | _ => none)
+              let steps := (targets.reverse.take 40).foldl (fun m db => max m (stepsNeeded w db.1 db.2)) 0
+              s!"{id} agree q={tally.n} ties={tally.ties} inexact={tally.inexact} maxsteps={steps} recs={rs.length}"
+      | _, _ => s!"{id} undecodable"
+    | _, _ => s!"{id} undecodable"
+  | _, _, _ => s!"{id} bad-case"
 
 def main (_args : List String) : IO Unit := forEachLine step
 
